@@ -18,3 +18,16 @@ package sm9
 //@   ensures err == nil ==> len(key) == kLen
 //@   heapnonnil
 //@   modifies everything
+
+// ---- the secret scalar (C12): exactly the last 32-byte block read from the random source, accepted
+// only if 0 < k < n; a failing source gives an error
+//@ func randomScalar property C12,C10
+//@   requires rand != nil && orderNat != nil && MSIZE(objof(orderNat)) == 32 && MBITS(objof(orderNat)) == 256 && MODV(objof(orderNat)) > 2
+//@   let P0 := ghost(rndpos, id(rand))
+//@   ensures err == nil ==> k != nil && ghost(natv, k) == RNDV(id(rand), ghost(rndpos, id(rand)) - 32, 32) && 1 <= ghost(natv, k) && ghost(natv, k) < MODV(objof(orderNat))
+//@   ensures ghost(rndpos, id(rand)) >= P0 + 32 || err != nil
+//@   ensures (ghost(rndpos, id(rand)) - P0) % 32 == 0 || err != nil
+//@   fresh k
+//@   modifies ghost(rndpos, id(rand))
+//@   loop 1 invariant k != nil && objof(k) < 0 && ghost(rndpos, id(rand)) >= P0 && (ghost(rndpos, id(rand)) - P0) % 32 == 0
+//@   coverreturns
